@@ -17,11 +17,8 @@ End Lem.
 (* gl l = false  ->  the leaf has neither an open-circuit voltage nor a short-circuit current *)
 Ltac guard_tac :=
   cbv [gl has_src zeroic]; intros H; try discriminate H;
-  try (apply orb_false_iff in H; destruct H as [_ H]);
-  try (apply negb_false_iff in H; apply eq0_true in H);
+  repeat match goal with H0 : orb _ _ = false |- _ => apply orb_false_iff in H0; destruct H0 end;
+  repeat match goal with H0 : negb _ = false |- _ => apply negb_false_iff in H0; apply eq0_true in H0 end;
   cbv [ld ld0 lVoc lIsc lY lZ oZ oY oVoc oIsc];
-  match type of H with
-  | @eq (car _) _ _ => rewrite ?H
-  | _ => idtac
-  end;
+  repeat match goal with H0 : @eq (car _) _ _ |- _ => rewrite ?H0; clear H0 end;
   split; rewrite ?div0_l; ring.
